@@ -282,7 +282,7 @@ func (rt *scriptedRT) RoundTrip(req *http.Request) (*http.Response, error) {
 	var notBefore time.Time
 	switch e.RA.Form {
 	case "sec":
-		h.Set("Retry-After", fmt.Sprint(e.RA.Sec))
+		h.Set("Retry-After", strings.Repeat("0", e.RA.Pad)+fmt.Sprint(e.RA.Sec))
 		notBefore = now.Add(time.Duration(e.RA.Sec) * time.Second)
 	case "neg":
 		h.Set("Retry-After", fmt.Sprint(-e.RA.Sec))
